@@ -472,9 +472,13 @@ func init() {
 	register(&Property{
 		ID:       "C04",
 		Title:    "Every decoration is rendered exactly once at its documented attachment point",
-		Packages: []string{pkgDecorator},
-		Build:    func(p *Program, tier string) ([]*Unit, []UnitError) { return restoreUnitsOf(p, tier, false) },
-		Select:   func(n string) bool { return reTape.MatchString(n) },
+		Packages: []string{pkgDecorator, pkgDstutil},
+		Build: func(p *Program, tier string) ([]*Unit, []UnitError) {
+			us, es := restoreUnitsOf(p, tier, false)
+			us2, es2 := buildAccessors(p, tier)
+			return append(us, us2...), append(es, es2...)
+		},
+		Select:   func(n string) bool { return reTape.MatchString(n) || strings.Contains(n, "#accessor:") },
 		Siblings: "C12 (position space), C11 (maps), C03 (fields)",
 	})
 }
